@@ -1,5 +1,6 @@
 """C16: generate_episode of the real trainers over real managers over the scripted stub."""
 import json
+import random
 import shutil
 import tempfile
 
@@ -83,17 +84,43 @@ def run_episode(kind, script, horizon, pm, tkind, tmpdir):
     trace, qlog, queries = [], [], []
     instrument(manager, sim, trace, qlog, queries)
     spaces = dict(action_space=Discrete(10), observation_space=MultiDiscrete([1000] * 4))
+    warm = script.get("warm")
+    if warm is not None:
+        # a history: the trainer object has already generated an episode with ANOTHER simulation, other policy
+        # objects (same names) and another mapping; everything is then replaced through the public setters
+        wr = random.Random(warm)
+        sc0 = {k: v for k, v in script.items() if k not in ("warm", "shadow", "undoneAt")}
+        sc0["doneAt"] = [wr.choice([1, 2, 3, mgr.NEVER]) for _ in range(script["n"])]
+        sc0["finishAt"] = wr.choice([2, 3, mgr.NEVER])
+        sim0 = StubSim(sc0)
+        manager0 = mgr.make_manager(kind, sim0, False)
+        pm0 = [wr.randrange(3) for _ in range(script["n"])]
+        wlog = []
     if tkind == "single":
-        trainer = PlainSingle(sim=manager, policy=CountingPolicy(0, qlog, **spaces))
+        if warm is not None:
+            trainer = PlainSingle(sim=manager0, policy=CountingPolicy(7, wlog, **spaces))
+            mgr.guarded(lambda: trainer.generate_episode(horizon=wr.randint(1, 4)), seconds=10)
+            trainer.sim = manager
+            trainer.policy = CountingPolicy(0, qlog, **spaces)
+        else:
+            trainer = PlainSingle(sim=manager, policy=CountingPolicy(0, qlog, **spaces))
         pm = [0] * script["n"]
     else:
         pids = sorted(set(pm))
         policies = {f"p{p}": CountingPolicy(p, qlog, **spaces) for p in pids}
         fn = lambda aid: f"p{pm[sim.idx[aid]]}"  # noqa: E731
-        if tkind == "multi":
-            trainer = PlainMulti(sim=manager, policies=policies, policy_mapping_fn=fn)
+        cls = PlainMulti if tkind == "multi" else DebugTrainer
+        kw = {} if tkind == "multi" else {"output_dir": tmpdir}
+        if warm is not None:
+            policies0 = {f"p{p}": CountingPolicy(p + 5, wlog, **spaces) for p in sorted(set(pm0) | set(pids))}
+            fn0 = lambda aid: f"p{pm0[sim0.idx[aid]]}"  # noqa: E731
+            trainer = cls(sim=manager0, policies=policies0, policy_mapping_fn=fn0, **kw)
+            mgr.guarded(lambda: trainer.generate_episode(horizon=wr.randint(1, 4)), seconds=10)
+            trainer.sim = manager
+            trainer.policies = policies
+            trainer.policy_mapping_fn = fn
         else:
-            trainer = DebugTrainer(sim=manager, policies=policies, policy_mapping_fn=fn, output_dir=tmpdir)
+            trainer = cls(sim=manager, policies=policies, policy_mapping_fn=fn, **kw)
     st, val = mgr.guarded(lambda: trainer.generate_episode(horizon=horizon), seconds=10)
     err = [] if st == "ok" else [st]
     if st == "ok":
@@ -161,6 +188,10 @@ class TrainerProp(core.Prop):
         steps = len(rec[5]) - 1
         fin = any(e[1][0][0] == "s" and (e[1][0][5] or any(d for _, d in e[1][0][3])) for e in rec[5])
         tags = [mgr.KINDS[kind], tkind, "h0" if horizon == 0 else ("early" if steps < horizon else "horizon")]
+        if script.get("warm") is not None:
+            tags.append("trainer-reused-after-setters")
+        if script.get("npFlags"):
+            tags.append("numpy-bool-flags")
         if rec[7]:
             tags.append("exc:" + rec[7][0])
         return core.Case(desc, line, wire.enc(rec), key=json.dumps(desc, sort_keys=True), nontrivial=fin, tags=tags)
@@ -208,6 +239,8 @@ class TrainerProp(core.Prop):
                 horizon = rng.randint(0, 12)
                 tkind = rng.choice(["single", "multi", "debug"])
                 pm = [rng.randrange(3) for _ in range(script["n"])]
+                if rng.random() < 0.3:
+                    script["warm"] = rng.randrange(10 ** 6)     # the trainer object was used before (run_episode)
                 yield self._case(kind, script, horizon, pm, tkind)
             # DebugTrainer.train: several episodes in a row with an explicit horizon
             for _ in range(150 if quick else 5000):
